@@ -705,12 +705,21 @@ class Judge:
         """resp is bytes or None (no response observed)"""
         act_mode, act_err, act_flags = case["act"]
         limit = self.limit_for(transport, req)
+        odd_question = "name-length-256-257" in req["soft"] or \
+            any((b"." in lab or b"\0" in lab) for (labels, _t, _c) in (req["questions"] or []) for lab in labels)
         if kind in ("notimpl", "maybe-notimpl"):
             if resp is None:
                 if kind == "notimpl":
                     self.viol("nonzero-opcode-not-answered", "%s: opcode %d query got no reply" % (what, req["opcode"]))
                 return
             self.st("notimpl_replies")
+            if odd_question:
+                # the question cannot be echoed faithfully through a C string (separate finding); judge header and size only
+                if len(resp) < 12 or struct.unpack(">H", resp[:2])[0] != req["id"] or (resp[3] & 0xf) != 4 or not resp[2] & 0x80:
+                    self.viol("nonzero-opcode-reply-not-notimpl", "%s: reply %s" % (what, resp[:12].hex()))
+                if len(resp) > limit:
+                    self.viol("response-exceeds-client-limit", "%s: response is %d bytes, client limit %d" % (what, len(resp), limit))
+                return
             exp = [dict(section=2, labels=(), type=TYPE_OPT, cls=512, ttl=0, is_name=False, rdata=b"")] if req["opt_size"] is not None else []
             qs = [(l, t, c) for (l, t, c) in req["questions"]]
             v, info = verify_response(resp, req["id"], qs, exp, limit, 4, prop=self.prop, check_content=False)
@@ -748,8 +757,7 @@ class Judge:
             self.viol("no-response", "%s: callback responded (rc %s) but the client received nothing (expected about %d bytes, limit %d)"
                       % (what, cb["resp"], unc, limit))
             return
-        if "name-length-256-257" in req["soft"] or \
-                any((b"." in lab or b"\0" in lab) for (labels, _t, _c) in (req["questions"] or []) for lab in labels):
+        if odd_question:
             # the question cannot be represented in the C-string API (reported by check_callback); only the size limit is judged
             self.st("responses_to_unrepresentable_question")
             if len(resp) > limit:
